@@ -271,7 +271,9 @@ func c17Scenarios(tier string) []engine.Scenario {
 			a = append(a, simple("regen(B1)", func(s *world.Stack) world.Req { return flows.Regen(s, b) }))
 			a = append(a, simple("oauth-start(B2,google,rm)", func(s *world.Stack) world.Req { return flows.OAuthStart(s, "B2", "google", "rm=true") }))
 			if stt := w.Browsers["B2"].Session[authboss.SessionOAuth2State]; stt != "" {
-				a = append(a, flows.A("oauth-cb(B2,google,state:own,code=c:7)", func(s *world.Stack, _ *world.World) world.Req { return flows.OAuthCallback(s, "B2", "google", stt, "c:7", "") }, ""))
+				a = append(a, flows.A("oauth-cb(B2,google,state:own,code=c:7)", func(s *world.Stack, _ *world.World) world.Req {
+					return flows.OAuthCallback(s, "B2", "google", stt, "c:7", "")
+				}, ""))
 			}
 			a = append(a, flows.Restart(b))
 			a = append(a, simple("open(B1)", func(s *world.Stack) world.Req { return flows.Open(b) }))
@@ -290,7 +292,7 @@ var _ = time.Second
 func init() {
 	engine.Register(&engine.Property{
 		ID: "C17", Level: "model_checking",
-		Rule: "E1 over the union of the successful and failing steps of every flow (all modules, e-mail authorisation on, form and JSON) incl. near-miss inputs a user really produces (mailed token with a trailing character or truncated, wrong password with the right one as a prefix); after every transition every known plaintext is searched for in all stored fields, the remember table and the transition's log lines, and token mails are checked against the owner's addresses; classes = request kinds, mail kinds and secret kinds in play",
+		Rule:  "E1 over the union of the successful and failing steps of every flow (all modules, e-mail authorisation on, form and JSON) incl. near-miss inputs a user really produces (mailed token with a trailing character or truncated, wrong password with the right one as a prefix); after every transition every known plaintext is searched for in all stored fields, the remember table and the transition's log lines, and token mails are checked against the owner's addresses; classes = request kinds, mail kinds and secret kinds in play",
 		Units: func(tier string) []engine.Unit { return e1Units(c17Scenarios(tier)) },
 		Need: []string{"known-secret:password", "known-secret:otp", "known-secret:rc", "known-secret:rm", "known-secret:rtok", "known-secret:ctok", "known-secret:vtok",
 			"mail:rtok", "mail:ctok", "mail:vtok", "request:confirm", "request:recover_end", "request:otplogin"},
